@@ -130,7 +130,9 @@ func TestPointersShared(t *testing.T) {
 		}
 	}
 	// prune: nothing below .a is recorded
-	pp := PointersPruned(o1, func(p string, v reflect.Value) bool { return v.Kind() == reflect.Ptr && v.Type().Elem().Name() == "inner" })
+	pp := PointersPruned(o1, func(p string, v reflect.Value) bool {
+		return v.Kind() == reflect.Ptr && v.Type().Elem().Name() == "inner"
+	})
 	for _, i := range pp {
 		if strings.Contains(i.Path, ".next") {
 			t.Errorf("pruned walk descended: %s", i.Path)
